@@ -190,6 +190,8 @@ impl TcpStream {
             // this is an earlier return try for nonblocking read
             // it's useful for server but not necessary for client
             match self.sys.peek(buf) {
+                #[cfg(may_verif)]
+                ref r if crate::verif::sys(&self._io.io_flag, "sys.peek", r) => unreachable!(),
                 Ok(n) => return Ok(n),
                 Err(e) => {
                     // raw_os_error is faster than kind
@@ -222,6 +224,8 @@ impl Read for TcpStream {
             // this is an earlier return try for nonblocking read
             // it's useful for server but not necessary for client
             match self.sys.read(buf) {
+                #[cfg(may_verif)]
+                ref r if crate::verif::sys(&self._io.io_flag, "sys.read", r) => unreachable!(),
                 Ok(n) => return Ok(n),
                 Err(e) => {
                     // raw_os_error is faster than kind
@@ -253,6 +257,8 @@ impl Write for TcpStream {
             self._io.reset();
             // this is an earlier return try for nonblocking write
             match self.sys.write(buf) {
+                #[cfg(may_verif)]
+                ref r if crate::verif::sys(&self._io.io_flag, "sys.write", r) => unreachable!(),
                 Ok(n) => return Ok(n),
                 Err(e) => {
                     // raw_os_error is faster than kind
@@ -283,6 +289,8 @@ impl Write for TcpStream {
             self._io.reset();
             // this is an earlier return try for nonblocking write
             match self.sys.write_vectored(bufs) {
+                #[cfg(may_verif)]
+                ref r if crate::verif::sys(&self._io.io_flag, "sys.write_vectored", r) => unreachable!(),
                 Ok(n) => return Ok(n),
                 Err(e) => {
                     // raw_os_error is faster than kind
@@ -394,6 +402,8 @@ impl TcpListener {
         {
             self._io.reset();
             match self.sys.accept() {
+                #[cfg(may_verif)]
+                ref r if crate::verif::sys(&self._io.io_flag, "sys.accept", r) => unreachable!(),
                 Ok((s, a)) => return TcpStream::new(s).map(|s| (s, a)),
                 Err(e) => {
                     // raw_os_error is faster than kind
